@@ -78,6 +78,26 @@ Theorem encoding_mirrors_charset : forall e sh, get_encoding (set_encoding e sh)
 Proof. exact get_set_encoding. Qed.
 Print Assumptions encoding_mirrors_charset.
 
+(* histories of assignments `sheet.encoding = name` (None removes the rule; `usable` = the names the charset rule's
+   setter accepts): a refused assignment changes nothing, and after any history the sheet has at most its leading
+   @charset rule and names an encoding that was accepted -- so escapecss_decodes / charset_rule_first apply to it.   *)
+Theorem refused_assignment_unchanged : forall usable sh e, usable e = false -> assign usable sh (Some e) = sh.
+Proof. exact assign_refused. Qed.
+Print Assumptions refused_assignment_unchanged.
+
+Theorem history_encoding_accepted : forall usable ops sh,
+  one_charset sh -> enc_ok usable sh ->
+  one_charset (run_history usable sh ops) /\ enc_ok usable (run_history usable sh ops).
+Proof. exact history_encoding_accepted_lemma. Qed.
+Print Assumptions history_encoding_accepted.
+
+Example history_ex :
+  let usable := fun e => negb (eqs (lower e) (s "rot13")) in
+  map rule_text (run_history usable [Charset (s "latin-1"); Other (s "a{}")] [Some (s "ROT13"); Some (s "KOI8-R"); Some (s "rot13")])
+  = [s "@charset " ++ [34%N] ++ s "koi8-r" ++ [34%N] ++ s ";"; s "a{}"] /\
+  get_encoding (run_history usable [Charset (s "latin-1")] [Some (s "rot13"); None]) = s "utf-8".
+Proof. vm_compute. split; reflexivity. Qed.
+
 (* ---- non-vacuity: the hypotheses hold for the ascii codec, and the theorems speak about real cases *)
 Example hyps_satisfiable :
   dec_enc_text_hyp ascii_encc ascii_dec [] (fun _ => true) /\
